@@ -563,10 +563,3 @@ class TypeConstructor(WithAtol):
                          "constructor raises ValueError => the arrays are not physical at the global atol")]
         return [true("raises-iff-not-physical", phys, "constructor succeeds => the arrays are physical at the global atol")]
 
-
-from .C18_all import Verdicts as _ELVerdicts
-
-
-class EffectiveLindbladianVerdicts(_ELVerdicts):
-    """the physicality predicates of EffectiveLindbladian (a Gate subclass): C18's verdict contract, re-checked under C01"""
-    prop = "C01"
